@@ -4,6 +4,14 @@ use async_graphql::{dynamic::*, Value as GqlValue};
 use futures_util::FutureExt;
 use serde_json::{json, Value};
 
+struct YieldN(u32);
+impl std::future::Future for YieldN { type Output = (); fn poll(mut self: std::pin::Pin<&mut Self>, cx: &mut std::task::Context<'_>) -> std::task::Poll<()> {
+    if self.0 == 0 { std::task::Poll::Ready(()) } else { self.0 -= 1; cx.waker().wake_by_ref(); std::task::Poll::Pending } } }
+fn block_on<F: std::future::Future>(f: F) -> F::Output {
+    let w = futures_util::task::noop_waker(); let mut cx = std::task::Context::from_waker(&w);
+    let mut f = Box::pin(f);
+    loop { if let std::task::Poll::Ready(v) = f.as_mut().poll(&mut cx) { return v; } }
+}
 fn schema() -> Schema {
     let dog = Object::new("Dog").implement("Animal")
         .field(Field::new("name", TypeRef::named_nn(TypeRef::STRING), |_| FieldFuture::new(async { Ok(Some(GqlValue::from("rex"))) })))
@@ -31,13 +39,19 @@ fn schema() -> Schema {
         .field(Field::new("nullNn", TypeRef::named_nn(TypeRef::INT), |_| FieldFuture::new(async { Ok(Some(GqlValue::Null)) })))
         .field(Field::new("nullItemNn", TypeRef::named_nn_list_nn(TypeRef::INT), |_| FieldFuture::new(async { Ok(Some(GqlValue::List(vec![GqlValue::from(1), GqlValue::Null]))) })))
         .field(Field::new("strAsInt", TypeRef::named_nn(TypeRef::INT), |_| FieldFuture::new(async { Ok(Some(GqlValue::from("seven"))) })))
+        // resolvers that really suspend: response keys must still come out in DOCUMENT order
+        .field(Field::new("slow", TypeRef::named_nn(TypeRef::INT), |_| FieldFuture::new(async { YieldN(3).await; Ok(Some(GqlValue::from(1))) })))
+        .field(Field::new("mid", TypeRef::named_nn(TypeRef::INT), |_| FieldFuture::new(async { YieldN(1).await; Ok(Some(GqlValue::from(2))) })))
         .field(Field::new("nums", TypeRef::named_nn_list(TypeRef::INT), |_| FieldFuture::new(async { Ok(Some(GqlValue::from(vec![1, 2]))) })));
     Schema::build("Query", None, None).register(dog).register(cat).register(animal).register(pet).register(canine).register(natural).register(color).register(q).finish().unwrap()
 }
 
 /// args {"query": "...", "data": "<expected json text>"}
 pub fn exec(args: &Value) -> Outcome {
-    let resp = schema().execute(args["query"].as_str().unwrap()).now_or_never().unwrap();
+    let mut req = async_graphql::Request::new(args["query"].as_str().unwrap());
+    if let Some(v) = args.get("variables") { if !v.is_null() { req = req.variables(async_graphql::Variables::from_json(v.clone())); } }
+    let sch = schema();
+    let resp = block_on(sch.execute(req));
     let data = serde_json::to_string(&resp.data).unwrap();
     if args["expect_error"] == true {
         // leaf values are CHECKED against their declared type: an invalid value is a field error, never response data
@@ -61,6 +75,14 @@ pub fn inputs(_seed: u64, open: &[String]) -> impl Iterator<Item = Value> {
         json!({"query": "{ pets { ...F } } fragment F on Dog { bark }", "data": "{\"pets\":[{\"bark\":3},{}]}"}),
         json!({"query": "{ num @skip(if: true) dog { name @include(if: false) bark } }", "data": "{\"dog\":{\"bark\":3}}"}),
         json!({"query": "{ ... { num } ... on Query { opt } }", "data": "{\"num\":7,\"opt\":null}"}),
+        json!({"query": "{ slow mid num }", "data": "{\"slow\":1,\"mid\":2,\"num\":7}"}),
+        json!({"query": "{ a: slow num b: mid c: slow }", "data": "{\"a\":1,\"num\":7,\"b\":2,\"c\":1}"}),
+        json!({"query": "{ ...F num } fragment F on Query { slow mid }", "data": "{\"slow\":1,\"mid\":2,\"num\":7}"}),
+        // both directives on one selection: BOTH must let it through
+        json!({"query": "{ num @skip(if: false) @include(if: false) opt }", "data": "{\"opt\":null}"}),
+        json!({"query": "{ num @include(if: true) @skip(if: true) opt }", "data": "{\"opt\":null}"}),
+        json!({"query": "{ num @include(if: true) @skip(if: false) opt }", "data": "{\"num\":7,\"opt\":null}"}),
+        json!({"query": "query($a: Boolean!, $b: Boolean!) { ... @skip(if: $a) @include(if: $b) { num } dog @include(if: $b) @skip(if: $a) { name } opt }", "variables": {"a": false, "b": false}, "data": "{\"opt\":null}"}),
         // a union condition the runtime object is NOT a member of never applies
         json!({"query": "{ animal { name ... on Canine { __typename } } }", "data": "{\"animal\":{\"name\":\"tom\"}}"}),
         json!({"query": "{ naturals }", "data": "{\"naturals\":[1,2]}"}),
